@@ -26,12 +26,17 @@ Proof. exact log_only_grows. Qed.
 Print Assumptions C04_log_only_grows.
 
 (* a rejected message is not stored: what a publish step appends are messages of the batch that
-   are not too large, and a wrong-expected-offset nack comes with an unchanged log *)
-Theorem C04_rejected_not_stored : forall s ms s' out, QInv s -> step s (LPublish ms) = (s', out) ->
-  (exists st, l_log s' = l_log s ++ st /\ forall m, In m st -> In m ms /\ pm_too_large m = false) /\
-  (forall a, In a out -> ak_kind a = AIncorrectOffset -> l_log s' = l_log s).
-Proof. exact step_nack_not_stored. Qed.
-Print Assumptions C04_rejected_not_stored.
+   are not too large, and a batch refused for its expected offset leaves the log unchanged (with
+   concurrency control each message is a batch of its own) *)
+Theorem C04_only_accepted_messages_stored : forall s ms s' out, QInv s -> step s (LPublish ms) = (s', out) ->
+  exists st, l_log s' = l_log s ++ st /\ forall m, In m st -> In m ms /\ pm_too_large m = false.
+Proof. exact step_stores_only_accepted. Qed.
+Print Assumptions C04_only_accepted_messages_stored.
+
+Theorem C04_refused_batch_not_stored : forall s ms s' out a, QInv s -> store_batch s ms = (s', out) -> In a out ->
+  ak_kind a = AIncorrectOffset -> l_log s' = l_log s.
+Proof. exact refused_batch_not_stored. Qed.
+Print Assumptions C04_refused_batch_not_stored.
 
 (* the statement is not vacuous: a history with all three policies, a slow follower, a shrink, an
    expansion, a too-large message; and the replication-factor-1 fast path *)
